@@ -483,15 +483,19 @@ def bad_lines(result):
 NAKED_LEFT = re.compile(r"(?<![\w.])\d+\s*(==|!=|<=|>=|[-+*/%&|^<>])")
 
 
-def line_tags(source, diags):
+def line_tags(source, diags, sites=()):
     """what the diagnosed lines of a rejected random program look like (for narrow known-finding keys)"""
     lines = source.split("\n")
     tags = set()
+    erased = [re.escape(s["node"]) for s in sites if s["kind"] == "decl"]
+    untyped_left = re.compile(r"(?<![\w.])(%s)\)*\s*(==|!=|<=|>=|[-+*/%%&|^<>])" % "|".join(erased)) if erased else None
     for code, ln in diags:
         text = lines[ln - 1] if 0 < ln <= len(lines) else ""
         t = []
         if NAKED_LEFT.search(text):
             t.append("naked-left")
+        if untyped_left is not None and untyped_left.search(text) and not text.startswith("var "):
+            t.append("untyped-left")
         if " as " in text:
             t.append("cast")
         tags.add("E%d[%s]" % (code, "+".join(t) or "other"))
@@ -595,7 +599,7 @@ def random_erasure(rep, tier, seed, selftest, stats):
         sig = " ".join("%s:%s:%s" % (s["f"] if s["f"] == "main" else "fn", s["kind"], s["was"]) for s in sites)
         key = "random %s :: %s codes=%s" % (sig, why, rec["codes"])
         if why == "rejected-determined":
-            key += " " + " ".join(line_tags(extra[rec["i"]]["source"], extra[rec["i"]]["diags"]))
+            key += " " + " ".join(line_tags(extra[rec["i"]]["source"], extra[rec["i"]]["diags"], sites))
         rep.violation("infer-" + why, key,
                       {"record": {k: rec[k] for k in rec if k != "p"}, "program": rec["p"], "sites": sites,
                        "message": "Trace_Inference (TLC) rejects this recorded line: %s" % why,
@@ -651,9 +655,34 @@ def trace_selftest(file_and_part):
 
 
 # ---------------------------------------------------------------------------
-def run_part(rep, tier, seed, selftest):
-    """-> coverage dict (keys prefixed infer_); violations are reported through rep.violation"""
+C07_KINDS = {"infer-accepted-illtyped", "infer-accepted-undetermined", "infer-wrong-type", "infer-suffix-ignored",
+             "infer-panic", "infer-silent", "infer-wrong-code", "infer-twin-rejected"}
+
+
+class _Filtered:
+    """a view of a Report that passes on only the violation kinds of one property (everything else is counted)"""
+
+    def __init__(self, rep, kinds):
+        self._rep, self._kinds, self.dropped = rep, kinds, collections.Counter()
+
+    def violation(self, kind, key, detail):
+        if kind in self._kinds:
+            return self._rep.violation(kind, key, detail)
+        self.dropped[kind] += 1
+        return False
+
+    def __getattr__(self, name):
+        return getattr(self._rep, name)
+
+
+def run_part(rep, tier, seed, selftest, focus=None):
+    """-> coverage dict (keys prefixed infer_); violations are reported through rep.violation.
+    focus=None: everything (C01: acceptance R3, behaviour, types; C07: R1, R2).
+    focus="C07": model checking + replay of every case only, and only the kinds that concern C07 (an accepted ill-typed /
+    undetermined body, a wrong resolved type, an ignored suffix, panic, silent failure); no execution, no random part."""
     t0 = time.time()
+    if focus == "C07":
+        rep = _Filtered(rep, C07_KINDS)
     common.build_harness(EXE)
     common.build_harness("pvh_machine")
     os.makedirs(common.WORK, exist_ok=True)
@@ -663,9 +692,21 @@ def run_part(rep, tier, seed, selftest):
         st2 = random_erasure(rep, tier, seed, selftest, stats)
         return {"infer_debug": stats}
     exec_jobs, samples, st1 = mc_and_replay(rep, tier, seed, selftest, stats)
-    machine = execute_twins(rep, tier, seed, exec_jobs, stats)
-    machine_oracle(rep, tier, seed, machine, stats)
-    st2 = random_erasure(rep, tier, seed, selftest, stats)
+    st2 = {}
+    if focus != "C07":
+        machine = execute_twins(rep, tier, seed, exec_jobs, stats)
+        machine_oracle(rep, tier, seed, machine, stats)
+        st2 = random_erasure(rep, tier, seed, selftest, stats)
+    else:
+        stats["kinds_left_to_C01"] = dict(rep.dropped)
+    if selftest:
+        # design level: does the model of the pinned algorithm accept every documented pattern (R3)?  TLC alone finds
+        # the counterexample `var a = 100i32; if 100 == ti32 goto end;` while finding F-I1 is open (no tool error either way:
+        # the invariant holds once typer.rs and the model are repaired)
+        r = common.tlc("MC_Inference", "MC_Inference_defect.cfg", workers=4, timeout=300, heap="4g", tag=tag("defect"), keep_output=False)
+        stats["acomplete"] = "violated (F-I1 / F-I2: the modelled algorithm rejects a documented pattern)" if r.violated == "AComplete" else \
+            ("holds" if r.ok else "other: %s" % r.violated)
+        log("[tlc] MC_Inference_defect.cfg (A |= R3, expected to fail while F-I1 is open): %s" % stats["acomplete"])
     selftests = dict(st1)
     selftests.update(st2)
     for name, ok in selftests.items():
@@ -683,6 +724,7 @@ def run_part(rep, tier, seed, selftest):
         "infer_distinct_nontrivial": stats["nontrivial"],
         "infer_model_invariants_hold": stats["invariants_hold"],
         "infer_model_agreement": stats["model_agreement"],
+        "infer_design_level_R3": stats.get("acomplete", "not run in this tier"),
         "infer_executed_pairs": stats.get("executed_pairs", 0),
         "infer_same_output": stats.get("same_output", 0),
         "infer_machine_validated_twins": stats.get("machine_validated", 0),
@@ -695,6 +737,8 @@ def run_part(rep, tier, seed, selftest):
                           "conflicting": stats["verdicts"].get("reject", 0), "undetermined": stats["verdicts"].get("undet", 0),
                           "random_determined": rv.get("accept", 0) + rv.get("free", 0), "random_undetermined": rv.get("undet", 0)},
         "infer_selftests": selftests,
+        "infer_focus": focus or "all",
+        "infer_kinds_left_to_C01": stats.get("kinds_left_to_C01", {}),
         "infer_samples": samples[:6],
         "infer_wall_s": round(time.time() - t0, 1),
         "infer_rule": "Inference.tla: per function the constraint system of unannotated declarations and naked literals "
@@ -752,6 +796,7 @@ def main(argv):
     ap.add_argument("--selftest", action="store_true")
     ap.add_argument("--replay")
     ap.add_argument("--property", default="INFER", help="report id (C01 / C07 to match their known findings)")
+    ap.add_argument("--focus", default=None, choices=["C07"], help="only what C07 needs (see run_part)")
     a = ap.parse_args(argv)
     if a.replay:
         return replay(a.replay)
@@ -770,7 +815,7 @@ def main(argv):
         return new
     rep.violation = logging_violation
     try:
-        cov = run_part(rep, a.tier, a.seed, a.selftest)
+        cov = run_part(rep, a.tier, a.seed, a.selftest, a.focus)
     except common.ToolError as e:
         print("TOOL-ERROR infer: %s" % e)
         return 2
